@@ -52,7 +52,7 @@ runpy.run_path(m.__file__, run_name='__main__')
 '''
 
 
-def cli_build_inputs(r, d, name, single, wl, iwl, case_id, acc):
+def cli_build_inputs(r, d, name, single, wl, iwl, case_id, acc, input_form=None):
     """Writes a library as the sequencer delivers it (1-3 lanes, each in 1-3 chunk files of unequal size) and decides how the files are handed to
     demux.py. Returns (lib, files as given on the command line, all pairs in input order, files on disk, input form)."""
     lib = 'LIBCLI'
@@ -81,7 +81,8 @@ def cli_build_inputs(r, d, name, single, wl, iwl, case_id, acc):
     # how the files reach the command line is not under the tool's control: any order, a path named twice, or a text file listing them
     # (a path repeated INSIDE a file list is not pruned by the tool: the lane then has unequal R1/R2 lists and the tool refuses it loudly -
     # such a list is outside the claim)
-    input_form = r.choice(['sorted', 'shuffled', 'duplicate', 'duplicate', 'filelist', 'filelist'])
+    drawn = r.choice(['sorted', 'shuffled', 'duplicate', 'duplicate', 'filelist', 'filelist'])
+    input_form = input_form or drawn
     given = list(files)
     if input_form != 'sorted':
         r.shuffle(given)
@@ -110,7 +111,8 @@ def run_cli_case(case):
     with Scratch('c01cli') as d:
         wl = fq.load_whitelists(os.path.join(fq.REPO_DEMUX, 'barcodes'))
         iwl = fq.load_whitelists(os.path.join(fq.REPO_DEMUX, 'indices'))
-        lib, files, all_pairs, files_on_disk, input_form, lanes = cli_build_inputs(r, d, name, single, wl, iwl, 7700 + case['j'], acc)
+        lib, files, all_pairs, files_on_disk, input_form, lanes = cli_build_inputs(r, d, name, single, wl, iwl, 7700 + case['j'], acc,
+                                                                                    input_form=['sorted', 'filelist', 'duplicate', 'shuffled', 'filelist', 'duplicate'][(case['j'] // 4) % 6])
         case_id = 7700 + case['j']
         N = len(all_pairs)
         nopt = r.choice([None, None, 1, N - 1, N, N + 3, r.randint(1, N)])
@@ -122,9 +124,8 @@ def run_cli_case(case):
         out = os.path.join(d, 'out')
         # how the strategies are selected: one named strategy, two named strategies (each read is offered to every selected
         # strategy), or none named (the autodetection probes the head of the library and selects the best scoring one)
-        mode = r.choice(['use', 'use', 'use', 'multi', 'auto', 'auto'])
-        if force_per_lane:
-            mode = 'use'
+        r.choice([0, 1, 2, 3, 4, 5])   # (keeps the random stream of earlier versions)
+        mode = ['use', 'use', 'multi', 'auto'][case['j'] % 4]     # every way of selecting strategies is exercised in every run
         second = None
         if mode == 'multi':
             second = r.choice([n2 for n2 in LY.ALL_NAMES if n2 not in ('ILLU', 'CHROMC16U12', name) and
